@@ -58,7 +58,7 @@ class Extractor:
                 if r == 0:
                     return None
                 return self.value(Val(inner, z3.IntVal(r)), depth)
-            srt = sort_of(ty)
+            srt = opt_of(ty)
             if z3.is_true(self.ev(srt.is_none(v.t))):
                 return None
             return self.value(Val(inner, srt.val(v.t)), depth)
@@ -105,7 +105,7 @@ class Extractor:
         vty = v.ty.args[0] or JV
         os_ = opt_sort(sort_of(vty))
         r = self.int_(v.t)
-        marr = z3.Select(self.heap0("Dict.map." + str(sort_of(vty)).replace(" ", "_"), z3.ArraySort(S, os_)), r)
+        marr = z3.Select(self.heap0("Dict.map." + str(sort_of(vty)).replace(" ", "_"), z3.ArraySort(S, os_.sort)), r)
         out = {}
         for k in sorted(self.key_candidates):
             cell = z3.Select(marr, z3.StringVal(k))
